@@ -108,19 +108,37 @@ def int_segment(name):
 # ---------------------------------------------------------------- operation sequences on one segment
 
 SEQ_OPS = [('rev',)] + [('crop', a, b) for a, b in ((0.0, 0.5), (0.25, 0.75), (0.5, 1.0), (1.0 / 3.0, 0.7))] + \
-          [('split0', t) for t in (0.25, 0.5, 0.7)] + [('split1', t) for t in (0.25, 0.5, 0.7)]
+          [('split0', t) for t in (0.25, 0.5, 0.7)] + [('split1', t) for t in (0.25, 0.5, 0.7)] + \
+          [('translate', 3 - 2j), ('rotate', 40.0, 1 - 1j), ('scale', 1.5), ('via_d',)]
+# the last four re-create the segment from its public attributes (end points, radii, flags ...): a piece
+# whose flags went stale in an earlier step traces the right curve until one of these rebuilds it
 
 
-def apply_op(seg, a, b, op):
-    """the real operation on the real segment, and the documented parameter map composed onto
-    cur(u) = orig(a + b*u)"""
+def apply_op(seg, a, b, op, al=1 + 0j, be=0j):
+    """the real operation on the real segment, and the documented map composed onto
+    cur(u) = al * orig(a + b*u) + be   (al, be: the similarity accumulated by translate / rotate / scale)"""
     if op[0] == 'rev':
-        return seg.reversed(), a + b, -b
+        return seg.reversed(), a + b, -b, al, be
     if op[0] == 'crop':
-        return seg.cropped(op[1], op[2]), a + b * op[1], b * (op[2] - op[1])
+        return seg.cropped(op[1], op[2]), a + b * op[1], b * (op[2] - op[1]), al, be
     if op[0] == 'split0':
-        return seg.split(op[1])[0], a, b * op[1]
-    return seg.split(op[1])[1], a + b * op[1], b * (1 - op[1])
+        return seg.split(op[1])[0], a, b * op[1], al, be
+    if op[0] == 'split1':
+        return seg.split(op[1])[1], a + b * op[1], b * (1 - op[1]), al, be
+    if op[0] == 'translate':
+        return seg.translated(op[1]), a, b, al, be + op[1]
+    if op[0] == 'rotate':
+        w = complex(math.cos(math.radians(op[1])), math.sin(math.radians(op[1])))
+        return seg.rotated(op[1], origin=op[2]), a, b, w * al, w * (be - op[2]) + op[2]
+    if op[0] == 'scale':
+        return seg.scaled(op[1]), a, b, op[1] * al, op[1] * be
+    if op[0] == 'via_d':
+        from svgpathtools import parse_path
+        out = parse_path(Path(seg).d())
+        if len(out) != 1:
+            raise AssertionError('d() of a single segment parsed to %d segments' % len(out))
+        return out[0], a, b, al, be
+    raise ValueError(op)
 
 
 def check_sequences(name, rot, depth, acc, only=None):
@@ -131,10 +149,10 @@ def check_sequences(name, rot, depth, acc, only=None):
     kind = type(orig).__name__[0]
     size = seg_size(orig)
     tol = tol_of(orig, size)
-    frontier = [((), orig, 0.0, 1.0)]
+    frontier = [((), orig, 0.0, 1.0, 1 + 0j, 0j)]
     for d in range(1, depth + 1):
         nxt = []
-        for hist, seg, a, b in frontier:
+        for hist, seg, a, b, al, be in frontier:
             for oi, op in enumerate(SEQ_OPS):
                 h = hist + (oi,)
                 if only is not None and tuple(only[:len(h)]) != h:
@@ -143,25 +161,27 @@ def check_sequences(name, rot, depth, acc, only=None):
                 acc.case(c, cls='%s/sequence/depth%d' % (kind, d))
                 acc.transitions += 1
                 sig = {'kind': kind, 'last_op': op[0], 'previous_op': SEQ_OPS[hist[-1]][0] if hist else None}
-                r = outcome(lambda: apply_op(seg, a, b, op))
+                if hist and op[0] in ('translate', 'rotate', 'scale', 'via_d') and SEQ_OPS[hist[-1]][0] in ('translate', 'rotate', 'scale', 'via_d'):
+                    continue        # two rebuilding steps in a row add nothing (C10 decides transforms of fresh objects)
+                r = outcome(lambda: apply_op(seg, a, b, op, al, be))
                 if r[0] != 'ok':
                     acc.violation('raises', dict(sig, exc=r[1]), c, observed=r)
                     continue
-                cur, a2, b2 = r[1]
+                cur, a2, b2, al2, be2 = r[1]
                 if type(cur) is not type(orig):
                     acc.violation('sequence_type', sig, c, observed=type(cur).__name__)
                     continue
                 bad = None
                 for u in US:
-                    want = orig.point(min(max(a2 + b2 * u, 0.0), 1.0))
-                    if not abs(cur.point(u) - want) <= tol * d:
+                    want = al2 * orig.point(min(max(a2 + b2 * u, 0.0), 1.0)) + be2
+                    if not abs(cur.point(u) - want) <= tol * d * max(1.0, abs(al2)):
                         bad = (u, cur.point(u), want)
                         break
                 if bad:
                     acc.violation('sequence_map', sig, c, observed=bad[1], expected=bad[2],
                                   detail='u=%r composed map a=%r b=%r' % (bad[0], a2, b2))
                     continue
-                nxt.append((h, cur, a2, b2))
+                nxt.append((h, cur, a2, b2, al2, be2))
         frontier = nxt
         acc.states += len(nxt)
 
@@ -266,7 +286,7 @@ def check_path(pname, acc, only=None):
     else:
         names, close = all_paths('thorough')[pname]
         segs = chain(names, close)
-    p = segs if isinstance(segs, Path) else Path(*segs)
+    p = segs if isinstance(segs, Path) else AB.derive_path(Path(*segs))
     segs = list(p)
     size = max(seg_size(s) for s in segs) * len(segs)
     has_arc = any(isinstance(s, Arc) for s in segs)
@@ -361,6 +381,7 @@ def shards(tier, seed):
            for r in (ROTS + [90] if tier == 'quick' else ROTS + [90, 211, 180]) for sc in ([1.0, 1e-3] if tier == 'quick' else [1.0, 1e-3, 1e3, 1e6])]
     out += [{'what': 'path', 'path': n} for n in list(all_paths(tier)) + list(RAW)]
     out += [{'what': 'int_segment', 'shape': n} for n in INT_SEGMENTS]
+    out += AB.provenance_shards(out, tier, lambda d: d['what'] == 'path' and d['path'] not in RAW, key='pprov')
     out += AB.provenance_shards(out, tier, lambda d: d['what'] == 'segment' and d.get('scale', 1.0) == 1.0 or (d['what'] == 'sequence' and d['rot'] == 0 and tier == 'quick'))
     out += [{'what': 'sequence', 'shape': n, 'rot': r, 'depth': 2 if tier == 'quick' else 4}
             for n in (list(AB.LINES) + list(AB.QUADS) + list(AB.CUBICS) + list(AB.ARCS)) for r in ([0] if tier == 'quick' else [0, 37, 211])]
